@@ -7,7 +7,7 @@ package keeper
 
 //@ define paramsStored = has(prm) && types.assetsOK(get(prm).AssetParams)
 
-//@ func Keeper.SetParams
+//@ func Keeper.SetParams(ctx, params)
 //@   property C16
 //@   returns err
 //@   modifies prm
@@ -15,7 +15,7 @@ package keeper
 //@   ensures rejected: err != nil ==> prm == old(prm)
 //@ end
 
-//@ func msgServer.UpdateParams
+//@ func msgServer.UpdateParams(goCtx, msg)
 //@   property C16
 //@   returns resp, err
 //@   modifies prm
@@ -46,7 +46,7 @@ package keeper
 // C03: locked funds leave escrow exactly once
 
 // Ordinary (non cross-chain) contracts and the common bookkeeping.
-//@ func Keeper.CreateHTLC
+//@ func Keeper.CreateHTLC(ctx, sender, to, receiverOnOtherChain, senderOnOtherChain, amount, hashLock, timestamp, timeLock, transfer)
 //@   property C03, C04, C13
 //@   returns id, err
 //@   requires height >= 0 && timeLock <= 34560
@@ -69,7 +69,7 @@ package keeper
 //@   ensures escrowed: err == nil && !transfer ==> bal == payIn(old(bal), sender, amount) && supply == old(supply) && supplies == old(supplies)
 //@ end
 
-//@ func Keeper.ClaimHTLC
+//@ func Keeper.ClaimHTLC(ctx, id, secret)
 //@   property C03, C04, C13
 //@   returns hashLock, transfer, dir, err
 //@   let h = get(htlcs, id)
@@ -91,7 +91,7 @@ package keeper
 //@ end
 
 // RefundHTLC does not check the state itself: its caller (BeginBlocker) hands it a record taken from the expiry queue.
-//@ func Keeper.RefundHTLC
+//@ func Keeper.RefundHTLC(ctx, h, id)
 //@   property C03, C04, C13
 //@   returns err
 //@   requires height >= 0
@@ -127,7 +127,7 @@ package keeper
 //@      && SUP(d).TimeLimitedCurrentSupply.Amount >= 0
 //@ define addTo(c, x) = coin(c.Denom, c.Amount + x)
 
-//@ func Keeper.GetAsset
+//@ func Keeper.GetAsset(ctx, denom)
 //@   property C03, C04
 //@   returns asset, err
 //@   invariant #1 idx:  rangeindex >= 0 - 1 && rangeindex < len(ASSETS)
@@ -138,7 +138,7 @@ package keeper
 //@   ensures unsupported: err != nil ==> (forall j:Int :: 0 <= j && j < len(ASSETS) ==> ASSETS[j].Denom != denom)
 //@ end
 
-//@ func Keeper.IncrementIncomingAssetSupply
+//@ func Keeper.IncrementIncomingAssetSupply(ctx, coin)
 //@   property C04
 //@   returns err
 //@   requires supWF(coin.Denom) && coin.Amount >= 0
@@ -151,7 +151,7 @@ package keeper
 //@   ensures keeps_wf: err == nil ==> supWF(coin.Denom)
 //@ end
 
-//@ func Keeper.DecrementIncomingAssetSupply
+//@ func Keeper.DecrementIncomingAssetSupply(ctx, coin)
 //@   property C04, C13
 //@   returns err
 //@   requires supWF(coin.Denom) && coin.Amount >= 0
@@ -164,7 +164,7 @@ package keeper
 //@   nopanic C13
 //@ end
 
-//@ func Keeper.IncrementOutgoingAssetSupply
+//@ func Keeper.IncrementOutgoingAssetSupply(ctx, coin)
 //@   property C04
 //@   returns err
 //@   requires supWF(coin.Denom) && coin.Amount >= 0
@@ -175,7 +175,7 @@ package keeper
 //@   ensures keeps_wf: err == nil ==> supWF(coin.Denom)
 //@ end
 
-//@ func Keeper.DecrementOutgoingAssetSupply
+//@ func Keeper.DecrementOutgoingAssetSupply(ctx, coin)
 //@   property C04, C13
 //@   returns err
 //@   requires supWF(coin.Denom) && coin.Amount >= 0
@@ -188,7 +188,7 @@ package keeper
 //@   nopanic C13
 //@ end
 
-//@ func Keeper.IncrementCurrentAssetSupply
+//@ func Keeper.IncrementCurrentAssetSupply(ctx, coin)
 //@   property C04
 //@   returns err
 //@   requires supWF(coin.Denom) && coin.Amount >= 0
@@ -202,7 +202,7 @@ package keeper
 //@   ensures keeps_wf: err == nil ==> supWF(coin.Denom)
 //@ end
 
-//@ func Keeper.DecrementCurrentAssetSupply
+//@ func Keeper.DecrementCurrentAssetSupply(ctx, coin)
 //@   property C04
 //@   returns err
 //@   requires supWF(coin.Denom) && coin.Amount >= 0
@@ -221,7 +221,7 @@ package keeper
 //@ define C0(c) = coinat(c, 0)
 //@ define bump(r, f, x) = with(r, f, addTo(ite(f == "IncomingSupply", r.IncomingSupply, ite(f == "OutgoingSupply", r.OutgoingSupply, r.CurrentSupply)), x))
 
-//@ func Keeper.createHTLT
+//@ func Keeper.createHTLT(ctx, sender, to, receiverOnOtherChain, senderOnOtherChain, amount, hashLock, timestamp, timeLock)
 //@   property C03, C04
 //@   returns dir, err
 //@   requires allSupWF && paramsValid
@@ -238,7 +238,7 @@ package keeper
 //@   ensures keeps_wf:  err == nil ==> allSupWF
 //@ end
 
-//@ func Keeper.claimHTLT
+//@ func Keeper.claimHTLT(ctx, htlc)
 //@   property C03, C04
 //@   returns err
 //@   requires allSupWF
@@ -259,7 +259,7 @@ package keeper
 //@   ensures keeps_wf:  err == nil ==> allSupWF
 //@ end
 
-//@ func Keeper.refundHTLT
+//@ func Keeper.refundHTLT(ctx, direction, sender, amount)
 //@   property C03, C04, C13
 //@   returns err
 //@   requires allSupWF
@@ -320,7 +320,7 @@ package keeper
 //@ family prevTime key global:types.PreviousBlockTimeKey value bytes
 
 // The expiry iteration (helper with callback; inlined into BeginBlocker together with the closure).
-//@ func Keeper.IterateHTLCExpiredQueueByHeight
+//@ func Keeper.IterateHTLCExpiredQueueByHeight(ctx, height, op)
 //@   inline
 //@   invariant #1 pos:   0 <= it_idx && it_idx <= it_n
 //@   invariant #1 supwf:    allSupWF
@@ -352,14 +352,14 @@ package keeper
 //@ define elapsedOK = forall d:Str :: has(supplies, d) ==> 0 <= SUP(d).TimeElapsed && SUP(d).TimeElapsed <= 2305843009213693952
 
 // Timestamp (de)serialisation through gogoproto length-prefixed encoding: assumed contracts (not verified).
-//@ func Keeper.GetPreviousBlockTime
+//@ func Keeper.GetPreviousBlockTime(ctx)
 //@   property C03, C04, C13
 //@   trusted
 //@   returns blockTime, found
 //@   ensures decoded: found == has(prevTime) && (found ==> blockTime == uf("decode_time", get(prevTime)))
 //@   nopanic
 //@ end
-//@ func Keeper.SetPreviousBlockTime
+//@ func Keeper.SetPreviousBlockTime(ctx, blockTime)
 //@   property C03, C04, C13
 //@   trusted
 //@   modifies prevTime
@@ -369,7 +369,7 @@ package keeper
 // The per-block window update touches only the time-limited bookkeeping: the incoming / outgoing / current counters
 // of every asset are unchanged; each asset's window advances by the block time step, and restarts (elapsed and
 // time-limited amount zero) once its own period is over -- per asset, independent of the other assets.
-//@ func Keeper.UpdateTimeBasedSupplyLimits
+//@ func Keeper.UpdateTimeBasedSupplyLimits(ctx)
 //@   property C04, C13
 //@   requires allSupWF && paramsValid && elapsedOK
 //@   requires uniqueDenoms(ASSETS)
@@ -389,7 +389,7 @@ package keeper
 //@ end
 
 // iteration over the asset supplies (helper with callback; inlined into InitGenesis): reads only
-//@ func Keeper.IterateAssetSupplies
+//@ func Keeper.IterateAssetSupplies(ctx, cb)
 //@   inline
 //@   invariant #1 pos:   0 <= it_idx && it_idx <= it_n
 //@   invariant #1 frame: forall j:Int :: 0 <= j && j < len(data.Htlcs) ==> has(htlcs, unhex(data.Htlcs[j].Id)) && get(htlcs, unhex(data.Htlcs[j].Id)) == data.Htlcs[j]
@@ -399,7 +399,7 @@ package keeper
 // ---------------------------------------------------------------------------------------------
 // Message handlers (C03): what the signer sent is what is locked; only a correct secret claims
 
-//@ func msgServer.CreateHTLC
+//@ func msgServer.CreateHTLC(goCtx, msg)
 //@   property C03
 //@   returns resp, err
 //@   requires height >= 0 && msg.TimeLock <= 34560
@@ -413,7 +413,7 @@ package keeper
 //@   ensures escrowed: err == nil && !msg.Transfer ==> bal == payIn(old(bal), addr(msg.Sender), msg.Amount)
 //@ end
 
-//@ func msgServer.ClaimHTLC
+//@ func msgServer.ClaimHTLC(goCtx, msg)
 //@   property C03
 //@   returns resp, err
 //@   let h = get(htlcs, unhex(msg.Id))
